@@ -476,6 +476,30 @@ func runC04(c *fw.Ctx) {
 					return
 				}
 			}
+			// (a1) exactly one write of the save is refused (nothing of it applied) and the store keeps working: if the round
+			// nevertheless reports success, what it saved must be complete
+			if i < W {
+				work4 := fmt.Sprintf("%s/onefail-%d", tmp, i)
+				grocksdb.CopyDisk(tmp+"/pre", work4)
+				fp, _ := util.NewPNodeDB(work4, "")
+				grocksdb.Control(work4).FailWrite(i)
+				_, _, ferr := execRound(fp, root, rd)
+				fp.Close()
+				grocksdb.Control(work4).Restart()
+				if ferr == nil {
+					if f := checkReadable(work4, saved[len(saved)-1]); f != "" {
+						fail("v%d: write %d of %d of the save was refused by the store, the round still reported success, and the saved state is incomplete: %s", v, i+1, W, f)
+					}
+					c.Count("rounds_reporting_success_despite_a_refused_write", 1)
+				}
+				c.Count("single_refused_writes", 1)
+				grocksdb.DropDisk(work4)
+				if c.Violated() {
+					grocksdb.DropDisk(work)
+					grocksdb.DropDisk(tmp + "/pre")
+					return
+				}
+			}
 			// (a) every previously saved, unpruned root still completely readable
 			for _, s := range retained() {
 				if s.version == v {
@@ -827,7 +851,7 @@ func init() {
 		Rule: "each case is a history of 3..10 rounds on a persistent store (real PNodeDB over the logging/crashing grocksdb stand-in). A round = block trie layered over the store at the previous saved root, 1..4 child transactions (1..6 inserts/deletes each, including delete-then-recreate of " +
 			"identical content, re-creation of content deleted in earlier rounds, unchanged re-writes) merged or discarded, then an existence probe of the new root on the store, SaveChanges(includeDeletes=false), RecordDeadNodes and a completeness read of the saved root through the same store object; random PruneBelowVersion in between; about every 32nd history contains one fat round (300..1100 inserts: several hundred to more than a thousand changed nodes in one save). After each save every retained root is re-read on a re-opened store " +
 			"(HasMissingNodes, lookups, Iterate, raw stored bytes through the harness' parser). For EVERY prefix length i=0..W of the save's physical write stream the round is re-executed from a copy of the pre-round disk with the store crashing after i writes; after restart every earlier " +
-			"retained root must be fully readable and re-executing + re-saving the round must give the same root and a complete state; the same failure is also played as a transient write error (the same trie and store objects retry the save once the store accepts writes again: a retry that reports success must leave a complete state). Case 7 saves values of exactly the size limit, one byte and 60 bytes less, and reads them from the store alone. A sixth of the histories instead keep ONE block-state trie object through all rounds (SetVersion per round, children merged into it, the growing pending set saved again every round, sometimes twice in a row) and re-read every saved root from the store alone after every save; at the end the trie is rebased onto the persistent store (SetNodeDB), must read the saved content, and a write through it must be complete on the store. non-trivial/distinct = distinct (history, round, crash index, root) points",
+			"retained root must be fully readable and re-executing + re-saving the round must give the same root and a complete state; the same point is also played with exactly one refused write (a round that still reports success must have saved completely) and as a transient write error (the same trie and store objects retry the save once the store accepts writes again: a retry that reports success must leave a complete state). Case 7 saves values of exactly the size limit, one byte and 60 bytes less, and reads them from the store alone. A sixth of the histories instead keep ONE block-state trie object through all rounds (SetVersion per round, children merged into it, the growing pending set saved again every round, sometimes twice in a row) and re-read every saved root from the store alone after every save; at the end the trie is rebased onto the persistent store (SetNodeDB), must read the saved content, and a write through it must be complete on the store. non-trivial/distinct = distinct (history, round, crash index, root) points",
 		Cases: func(tier string) int {
 			if tier == "thorough" {
 				return 32000
@@ -835,7 +859,7 @@ func init() {
 			return 2000
 		},
 		Run:        runC04,
-		Floors:     map[string]int64{"histories": 1500, "long_lived_trie_histories": 250, "values_at_the_size_limit_saved_and_reread": 4, "rounds_on_a_long_lived_trie": 1200, "rounds": 9000, "crash_points": 30000, "roots_reread": 30000, "prunes": 1000, "recreate_same_txn": 1000, "recreate_from_graveyard": 1000, "max:save_stream_writes": 2, "fat_rounds": 30, "same_object_save_retries": 15000},
+		Floors:     map[string]int64{"histories": 1500, "long_lived_trie_histories": 250, "values_at_the_size_limit_saved_and_reread": 4, "rounds_on_a_long_lived_trie": 1200, "rounds": 9000, "crash_points": 30000, "roots_reread": 30000, "prunes": 1000, "recreate_same_txn": 1000, "recreate_from_graveyard": 1000, "max:save_stream_writes": 2, "fat_rounds": 30, "same_object_save_retries": 15000, "single_refused_writes": 15000},
 		Exhaustive: nil,
 		Assumptions: []string{
 			"the store is modelled as a sorted KV store with atomic write batches and process-crash durability of completed writes (wo.SetSync(false)); OS-crash loss of unsynced WAL is out of scope",
